@@ -12,6 +12,9 @@ CaseInit == /\ cid \in 1..Len(Cases)
             /\ LET c == Cases[cid]
                IN  cs = IF c.mode = "import"
                         THEN [mode |-> "import", v |-> c.v, px |-> c.px, fmt |-> c.fmt, rin |-> [i \in 1..Len(c.rin) |-> WithM(c.rin[i])]]
+                        ELSE IF c.mode = "orig"
+                        THEN [mode |-> "orig", v |-> c.v, px |-> c.px, fmt |-> c.fmt, rin |-> [i \in 1..Len(c.rin) |-> WithM(c.rin[i])],
+                              hist |-> c.hist]
                         ELSE [mode |-> "export", v |-> c.v, px |-> c.px, fmt |-> c.fmt, parts |-> c.parts, hist |-> c.hist]
-            /\ rel = <<>> /\ back = <<>> /\ pc = "start" /\ op = "init"
+            /\ rel = <<>> /\ back = <<>> /\ pc = "start" /\ op = "init" /\ live = <<>>
 =============================================================================
